@@ -144,7 +144,8 @@ def parseOp (t : List String) : Option (MonOp × Option Mod) :=
       | "validate" => (parseFields (modName m) r).map fun p => (.validate p, some m)
       | "update" =>
         match parseFields (modName m) r, arg? r "sender" with
-        | some p, some sender => some (.update sender p, some m)
+        | some p, some sender =>
+          if arg r "direct" = "1" then some (.updateDirect sender p, some m) else some (.update sender p, some m)
         | _, _ => none
       | "genesis" => (parseFields (modName m) r).map fun p => (.genesis p, some m)
       | "battery" => some (.battery m, some m)
@@ -189,7 +190,7 @@ def parseObs (op : MonOp) (m : Option Mod) (o : List String) : Option MonObs :=
   match op, m with
   | .reset, _ => (parseAll o).map .reset
   | .validate _, _ => o.head?.map .validate
-  | .update _ _, some m =>
+  | .update _ _, some m | .updateDirect _ _, some m =>
     match o.head?, storedOf m o, arg? o "sv" with
     | some cls, some post, some sv => some (.update cls post sv)
     | _, _, _ => none
